@@ -504,4 +504,23 @@ def ob_queue_then_timeout(vc):
     vc.check_eq([s[1] for s in w.sends], [w.R], "queued_entry.only_to_its_destination")
 
 
-SEND_QUEUE_OBLIGATIONS = [ob_queue_send, ob_collector_timeout, ob_queue_then_timeout]
+def ob_stop_keeps_queued_entries(vc):
+    """requests made while the announcer is being stopped: stop() / connection_lost() do
+    not drop what is already queued -- every open collector keeps its entries and its live
+    timer, so they are still transmitted when their window closes"""
+    w = QWorld(vc)
+    w.ann.started = vc.bool("started")
+    if vc.bool("via_connection_lost"):
+        vc.body(SD.ServiceAnnouncer.connection_lost)(w.ann, None)
+    else:
+        vc.body(SD.ServiceAnnouncer.stop)(w.ann)
+    for c, remote, data in ((w.col, w.R, [w.prior] if w.state == "open-one" else []), (w.col2, w.R2, [w.other])):
+        if c is not None and not c.done:
+            vc.cover("pending")
+            vc.check(w.ann.send_queues.get(remote) is c, "announcer.stop.pending_collector_still_registered")
+            vc.check(not c._handle.cancelled_, "announcer.stop.pending_collector_timer_still_live")
+            vc.check_eq(c.data, data, "announcer.stop.pending_entries_kept")
+    vc.check_eq(w.sends, [], "announcer.stop.sends_nothing_immediately_by_itself")
+
+
+SEND_QUEUE_OBLIGATIONS = [ob_queue_send, ob_collector_timeout, ob_queue_then_timeout, ob_stop_keeps_queued_entries]
